@@ -39,7 +39,8 @@ RULE = (
     "lag, or >=2 clusters present."
     ' Later additions: times on both sides of zero, read-only inputs, an id array reversed in pla'
     'ce between two calls, bins of 13-250 samples with pairs whole bins apart, seconds-long bins '
-    'at 32 768 Hz, trains of 400 000 (thorough 2**20+77) spikes.')
+    'at 32 768 Hz, trains of 400 000 (thorough 2**20+77) spikes, an id of 70 001 among few '
+    'spikes (sparse ids) requested in descending order.')
 ASSUMPTIONS = ['sample rates are powers of two so that times*rate is exact']
 
 
@@ -216,6 +217,8 @@ def check(case):
     ids_map = list(IDS)
     if case['dt'] == 'uint16' and sum(gaps) % 2:
         ids_map[1] = 65535          # an id at the top of the label dtype's range
+    elif case['dt'] != 'uint16' and sum(gaps) % 3 == 0:
+        ids_map[2] = 70001          # few spikes, an id far above their number (sparse ids)
     cl = [ids_map[k] for k in labels]
     tt = case.get('tt', 'float64')
     if tt == 'uint32' and samples[0] < 0:
